@@ -17,6 +17,8 @@ type Walk struct {
 	// AtomP is like Atom but also receives a resolver for phis along the
 	// path walked so far (nil result when the phi's block is not on the path).
 	AtomP func(v ssa.Value, phi func(*ssa.Phi) ssa.Value) (val, known bool)
+	// Stop ends a path at the first instruction it accepts (the trace's End).
+	Stop func(ssa.Instruction) bool
 	// MaxVisits bounds how often one block may appear on a path (default 2).
 	MaxVisits int
 	// MaxTraces bounds the number of traces returned (default 4096).
@@ -127,6 +129,14 @@ func (w Walk) Traces(fn *ssa.Function) []Trace {
 			stack = stack[:len(stack)-1]
 			instrs = instrs[:n0]
 		}()
+		if w.Stop != nil {
+			for i, in := range b.Instrs {
+				if w.Stop(in) {
+					out = append(out, Trace{Instrs: append([]ssa.Instruction(nil), instrs[:n0+i+1]...), Blocks: append([]*ssa.BasicBlock(nil), stack...), End: in})
+					return
+				}
+			}
+		}
 		if len(b.Instrs) == 0 {
 			return
 		}
@@ -153,4 +163,34 @@ func (w Walk) Traces(fn *ssa.Function) []Trace {
 	}
 	dfs(fn.Blocks[0])
 	return out
+}
+
+// Resolve follows phis along the trace to the operand the path selected
+// (the last time the phi's block was entered); other values are returned as
+// they are.
+func (t Trace) Resolve(v ssa.Value) ssa.Value {
+	for depth := 0; depth < 12; depth++ {
+		phi, ok := v.(*ssa.Phi)
+		if !ok {
+			return v
+		}
+		found := false
+		for j := len(t.Blocks) - 1; j >= 1; j-- {
+			if t.Blocks[j] != phi.Block() {
+				continue
+			}
+			for i, p := range phi.Block().Preds {
+				if p == t.Blocks[j-1] && i < len(phi.Edges) {
+					v = phi.Edges[i]
+					found = true
+					break
+				}
+			}
+			break
+		}
+		if !found {
+			return v
+		}
+	}
+	return v
 }
